@@ -373,8 +373,12 @@ def _roundtrip(verdicts: Verdicts, got: Any, seen: Dict[str, Any]) -> None:
         _ok(verdicts, clause)
 
 
-def metamorphic(base_texts: Sequence[str], other_texts: Sequence[str], mult: Sequence[float], clause: str) -> Verdicts:
-    """both sequences must be treated the same by the real parser (same refusal or same rules)"""
+def metamorphic(base_texts: Sequence[str], other_texts: Sequence[str], mult: Sequence[float], clause: str,
+                free_text: bool = True) -> Verdicts:
+    """both sequences must be treated the same by the real parser (same refusal or same rules);
+       free_text: also compare DESCRIPTION / EXAMPLE texts (not for the alias clause: they are not
+       part of what the rule denotes, and the parser substitutes an alias label only when it is the
+       first word of such a text)"""
     verdicts: Verdicts = {}
     try:
         base_rules, base_refusal = real_parse_sequence(base_texts, mult)
@@ -398,7 +402,10 @@ def metamorphic(base_texts: Sequence[str], other_texts: Sequence[str], mult: Seq
         _fail(verdicts, clause, f"{len(first)} rules vs {len(second)} rules")
         return verdicts
     for one, two in zip(first, second):
-        for field in ("name", "category", "cutoff", "neighbourhood", "superiors", "related", "description", "examples"):
+        fields = ["name", "category", "cutoff", "neighbourhood", "superiors", "related"]
+        if free_text:
+            fields += ["description", "examples"]
+        for field in fields:
             if one[field] != two[field]:
                 _fail(verdicts, clause, f"rule {one['name']}: {field} {one[field]!r} vs {two[field]!r}")
         for field in ("conditions", "extenders"):
@@ -450,7 +457,7 @@ def precedence_family() -> List[str]:
     return out
 
 
-_NOISE = [" ", " ", "  ", "\n", "\t", " \n  ", "\r\n", " # a comment ( and RULE x CONDITIONS [\n",
+_NOISE = [" ", " ", "  ", "\n", "\t", " \n  ", "\r\n", "# glued comment\n", "\x0b", " # a comment ( and RULE x CONDITIONS [\n",
           "\n# whole line, with a url https://example.org/x?y=1 and 'quotes'!\n", "\t\t", "\n\n"]
 
 
@@ -720,7 +727,8 @@ def ill_formed_family() -> List[Tuple[str, List[str]]]:
     for cond in ("a and", "and a", "a b", "a and or b", "a not and b", "not not a and b", "a and not", "cds(a)",
                  "cds(not a)", "cds()", "cds(a and cds(b and c))", "cds(a and minimum(1, [b]))", "minimum(2, [])",
                  "minimum(a, [b])", "minimum([a, b])", "minimum(2, [a b])", "minscore(a)", "minscore(5, a)",
-                 "a and (b or c) d", "a, b", "[a]", "a and CUTOFF"):
+                 "a and (b or c) d", "a, b", "[a]", "a and CUTOFF", "cds(a and (b or cds(c and d)))",
+                 "cds(a and (minimum(1, [b]) or c))", "cds(a and not (cds(b and c)))"):
         out.append(("syntax", [wrap(cond)]))
     return out
 
@@ -854,7 +862,7 @@ def _run_files(shard: Dict[str, Any], run: Any) -> None:
         expanded = expand_aliases(joined)
         if expanded is not None:
             case = {"fam": "alias", "texts": [joined], "other": [expanded], "mult": mult}
-            _report(run, metamorphic([joined], [expanded], mult, "aliases-are-textual-substitution"), case)
+            _report(run, metamorphic([joined], [expanded], mult, "aliases-are-textual-substitution", False), case)
         # one file or several: same rules
         if len(texts) > 1:
             case = {"fam": "split", "texts": [joined], "other": texts, "mult": mult}
@@ -942,7 +950,7 @@ def replay(case: Dict[str, Any]) -> List[str]:
     elif fam == "noise":
         verdicts = metamorphic(case["texts"], case["other"], mult, "whitespace-and-comments-irrelevant")
     elif fam == "alias":
-        verdicts = metamorphic(case["texts"], case["other"], mult, "aliases-are-textual-substitution")
+        verdicts = metamorphic(case["texts"], case["other"], mult, "aliases-are-textual-substitution", False)
     elif fam == "split":
         verdicts = metamorphic(case["texts"], case["other"], mult, "rules-split-over-files-same-as-one-file")
     elif fam == "create_rules":
